@@ -141,13 +141,31 @@ def build_array(cls, n, a, b, signed=True, masked=False, ramp=False, strided=Fal
             arr[i] = t["mk"](ks[i])
         return arr, None
     base = t["T"](2 * n)
-    m = imath.IntArray(2 * n)
     filler = kseq(n, a + 3, b + 5, signed)
     for i in range(n):
         base[2 * i] = t["mk"](ks[i])
         base[2 * i + 1] = t["mk"](filler[i])
-        m[2 * i] = 1
-        m[2 * i + 1] = 0
+    # the mask itself comes in three layouts: a plain IntArray, a masked reference (every second element of a 4n
+    # array whose other elements hold the opposite flag), a strided member view (V3iArray.y)
+    layout = (a + b) % 3
+    if layout == 1:
+        mb = imath.IntArray(4 * n)
+        pick = imath.IntArray(4 * n)
+        for q in range(2 * n):
+            mb[2 * q] = 1 - q % 2
+            mb[2 * q + 1] = q % 2
+            pick[2 * q] = 1
+        m = mb[pick]
+    elif layout == 2 and hasattr(imath, "V3iArray"):
+        par = imath.V3iArray(2 * n)
+        for q in range(2 * n):
+            par[q] = imath.V3i(q % 2, 1 - q % 2, 7)
+        m = par.y
+    else:
+        m = imath.IntArray(2 * n)
+        for i in range(n):
+            m[2 * i] = 1
+            m[2 * i + 1] = 0
     return base[m], base
 
 
